@@ -103,6 +103,11 @@ func (g *GoChannel) Publish(topic string, messages ...*message.Message) error {
 
 	if g.config.Persistent {
 		g.persistedMessagesLock.Lock()
+		if g.persistedMessages == nil {
+			// Close finished after the closed check at the top of Publish
+			g.persistedMessagesLock.Unlock()
+			return errors.New("Pub/Sub closed")
+		}
 		if _, ok := g.persistedMessages[topic]; !ok {
 			g.persistedMessages[topic] = make([]*message.Message, 0)
 		}
@@ -322,7 +327,9 @@ func (g *GoChannel) Close() error {
 	verifhook.At("gochannel.close.waited", verifhook.Ptr(g))
 
 	g.logger.Info("Pub/Sub closed", nil)
+	g.persistedMessagesLock.Lock()
 	g.persistedMessages = nil
+	g.persistedMessagesLock.Unlock()
 
 	return nil
 }
